@@ -1,4 +1,5 @@
 """Turn a connection's record events into TCP segments (causal, arbitrarily segmentable, with retransmissions/reordering)."""
+import struct
 from dataclasses import dataclass
 
 from . import netsynth as ns
@@ -14,6 +15,7 @@ class Endpoints:
     sport: int
     cisn: int = 1000
     sisn: int = 5000
+    tcpopts: bool = False     # segments carry TCP options as real stacks send them (timestamps on every segment, MSS/SACK-permitted/window scale on SYN, SACK blocks on some ACKs)
 
     @property
     def v6(self):
@@ -86,7 +88,7 @@ def random_ep(rng, v6=None, sport=443, odd=0.3):
         sisn = cisn                                             # equal initial sequence numbers
     else:                                                       # half the sequence space apart, give or take a stream length
         sisn = (cisn + (1 << 31) + rng.choice([-1, 1]) * rng.choice([0, 1, 2, 100, 700, 3000, 20000, rng.randrange(0, 70000)])) % (1 << 32)
-    return Endpoints(cm, sm, ci, si, cport, sport, cisn, sisn)
+    return Endpoints(cm, sm, ci, si, cport, sport, cisn, sisn, tcpopts=bool(odd) and (cport ^ cisn) % 3 != 0)
 
 
 @dataclass
@@ -147,7 +149,16 @@ def frame(ep: Endpoints, s: Seg, bad_csum=False):
         sm, dm, si, di, sp, dp = ep.cmac, ep.smac, ep.cip, ep.sip, ep.cport, ep.sport
     else:
         sm, dm, si, di, sp, dp = ep.smac, ep.cmac, ep.sip, ep.cip, ep.sport, ep.cport
-    seg = ns.tcp_segment(si, di, sp, dp, s.seq, s.ack, s.flags, s.payload, bad_csum=bad_csum)
+    opts = b""
+    if ep.tcpopts:
+        tsv = struct.pack("!II", (s.seq * 2654435761 + 7) & 0xFFFFFFFF, (s.ack * 40503 + 1) & 0xFFFFFFFF)
+        if s.flags & 0x02:
+            opts = b"\x02\x04\x05\xb4\x04\x02\x08\x0a" + tsv + b"\x01\x03\x03\x07"             # MSS, SACK permitted, timestamps, NOP, window scale
+        elif not s.payload and (s.seq + s.ack) % 7 == 0:
+            opts = b"\x01\x01\x08\x0a" + tsv + b"\x01\x01\x05\x0a" + struct.pack("!II", (s.ack + 100) & 0xFFFFFFFF, (s.ack + 200) & 0xFFFFFFFF)      # + one SACK block
+        else:
+            opts = b"\x01\x01\x08\x0a" + tsv
+    seg = ns.tcp_segment(si, di, sp, dp, s.seq, s.ack, s.flags, s.payload, bad_csum=bad_csum, options=opts)
     return ns.eth_frame(sm, dm, ns.ip_packet(si, di, 6, seg))
 
 
